@@ -9,6 +9,7 @@ import (
 	"go/ast"
 	"go/token"
 	"go/types"
+	"sort"
 	"strings"
 )
 
@@ -293,4 +294,158 @@ func fnReturnsError(p *Prog, fn *Fn) bool {
 	}
 	f := fn.Type.Results.List[len(fn.Type.Results.List)-1]
 	return isErrorType(fn.Pkg.TypesInfo.TypeOf(f.Type))
+}
+
+// accReset is one reset of an accumulator inside the loop that fills it.
+type accReset struct {
+	Loop  ast.Stmt
+	Var   types.Object
+	Reset *ast.AssignStmt
+}
+
+// accumulatorResets lists, for every loop of fn, the variables declared outside the loop that the loop body
+// extends with `x = append(x, …)`, that are read after the loop, and that the body also overwrites with a value
+// not derived from x (what the earlier iterations collected is thrown away). An overwrite directly followed by
+// leaving the loop (break/return in the same block) is the abandon-the-result idiom and is not listed.
+func accumulatorResets(p *Prog, fn *Fn) (nacc int, out []accReset) {
+	mentions := func(e ast.Expr, o types.Object) bool {
+		found := false
+		ast.Inspect(e, func(n ast.Node) bool {
+			if id, ok := n.(*ast.Ident); ok && p.ObjOf(fn, id) == o {
+				found = true
+			}
+			return !found
+		})
+		return found
+	}
+	walkNoLit(fn.Body, func(n ast.Node) bool {
+		var body *ast.BlockStmt
+		switch s := n.(type) {
+		case *ast.RangeStmt:
+			body = s.Body
+		case *ast.ForStmt:
+			body = s.Body
+		default:
+			return true
+		}
+		loop := n.(ast.Stmt)
+		accs := map[types.Object]bool{}
+		walkNoLit(body, func(m ast.Node) bool {
+			as, ok := m.(*ast.AssignStmt)
+			if !ok || as.Tok != token.ASSIGN || len(as.Lhs) != 1 || len(as.Rhs) != 1 {
+				return true
+			}
+			id, ok := as.Lhs[0].(*ast.Ident)
+			if !ok {
+				return true
+			}
+			o := p.ObjOf(fn, id)
+			if o == nil || (o.Pos() >= loop.Pos() && o.Pos() < loop.End()) {
+				return true
+			}
+			if call, ok := ast.Unparen(as.Rhs[0]).(*ast.CallExpr); ok && p.Builtin(fn, call) == "append" && len(call.Args) > 0 && mentions(call.Args[0], o) {
+				accs[o] = true
+			}
+			return true
+		})
+		for o := range accs {
+			readAfter := false
+			walkNoLit(fn.Body, func(m ast.Node) bool {
+				if id, ok := m.(*ast.Ident); ok && id.Pos() >= loop.End() && p.ObjOf(fn, id) == o {
+					readAfter = true
+				}
+				return !readAfter
+			})
+			if !readAfter {
+				continue
+			}
+			nacc++
+			var visit func(list []ast.Stmt)
+			check := func(list []ast.Stmt) {
+				leaves := false
+				if len(list) > 0 {
+					switch l := list[len(list)-1].(type) {
+					case *ast.ReturnStmt:
+						leaves = true
+					case *ast.BranchStmt:
+						leaves = l.Tok == token.BREAK || l.Tok == token.GOTO
+					}
+				}
+				for _, st := range list {
+					as, ok := st.(*ast.AssignStmt)
+					if !ok || as.Tok != token.ASSIGN {
+						continue
+					}
+					for i, l := range as.Lhs {
+						id, ok := l.(*ast.Ident)
+						if !ok || p.ObjOf(fn, id) != o {
+							continue
+						}
+						var rhs ast.Expr
+						if len(as.Rhs) == len(as.Lhs) {
+							rhs = as.Rhs[i]
+						}
+						if rhs != nil && mentions(rhs, o) {
+							continue
+						}
+						if leaves {
+							continue
+						}
+						out = append(out, accReset{Loop: loop, Var: o, Reset: as})
+					}
+				}
+			}
+			visit = func(list []ast.Stmt) {
+				check(list)
+				for _, st := range list {
+					walkNoLit(st, func(m ast.Node) bool {
+						switch b := m.(type) {
+						case *ast.BlockStmt:
+							if m != st {
+								visit(b.List)
+								return false
+							}
+						case *ast.CaseClause:
+							visit(b.Body)
+							return false
+						case *ast.CommClause:
+							visit(b.Body)
+							return false
+						}
+						return true
+					})
+				}
+			}
+			visit(body.List)
+		}
+		return true
+	})
+	sort.Slice(out, func(i, j int) bool { return out[i].Reset.Pos() < out[j].Reset.Pos() })
+	return
+}
+
+// accumulatorsKept arms the rule over the functions selected by scope.
+func accumulatorsKept(c *Ctx, r *Report, rule string, scope func(*Fn) bool, floor int, consequence string) {
+	p := c.P
+	n, nbad := 0, 0
+	for _, fn := range p.Fns {
+		if fn.Orig != nil || !p.firstParty(fn.Pkg.Types) || !scope(fn) {
+			continue
+		}
+		k, resets := accumulatorResets(p, fn)
+		n += k
+		seen := map[token.Pos]bool{}
+		for _, a := range resets {
+			if seen[a.Reset.Pos()] {
+				continue
+			}
+			seen[a.Reset.Pos()] = true
+			nbad++
+			r.Violate(rule, r.Key(rule, fn, "accumulator-reset", a.Var.Name()), a.Reset.Pos(), fmt.Sprintf("%s is filled by the loop at %s in %s and read after it, but the loop body overwrites it at %s with a value not derived from it: what the earlier iterations collected is dropped; %s", a.Var.Name(), p.Pos(a.Loop.Pos()), fn.Name, p.Pos(a.Reset.Pos()), consequence))
+		}
+	}
+	if nbad == 0 {
+		r.Hold(rule, r.Key(rule, nil, "accumulators-kept", ""), token.NoPos, true, fmt.Sprintf("%d accumulators in scope are only ever extended (or abandoned together with the loop) by the loops that fill them", n))
+	}
+	r.Floor(rule, "accumulators in scope", n, floor)
 }
